@@ -483,14 +483,30 @@ fn sized_vec(len: usize, b: &[u8; BMAX]) -> Vec<u8> {
 /// image: record A (used, the one rewritten / or a used bystander when a new record is added),
 /// slot B (free or used), record C (used neighbour at the end).  One real write_piece.
 fn val_write(is_new: bool, b_is_free: bool, with_c: bool) {
+    val_write_sz(is_new, b_is_free, with_c, false)
+}
+/// `small`: slots of the 10 smallest classes (16..256 bytes) and lengths up to 250 only - every
+/// class boundary and the 1 -> 2 byte length encoding at 128 are crossed; the large class and
+/// first fit are left to r_pop_large3 and the unrestricted variants
+fn val_write_sz(is_new: bool, b_is_free: bool, with_c: bool, small: bool) {
     set_key_file(false);
     let mut f = VarFile::model(vp::piece_mgr());
-    let sa = any_slot_size();
-    let sb = any_slot_size();
-    let sc = any_slot_size();
+    let lmax: u32 = if small { 250 } else { 1300 };
+    let pick = || {
+        if small {
+            let i: usize = kani::any();
+            kani::assume(i < 10);
+            spec::CLASSES[i]
+        } else {
+            any_slot_size()
+        }
+    };
+    let sa = pick();
+    let sb = pick();
+    let sc = pick();
     let la: u32 = kani::any();
     let lc: u32 = kani::any();
-    kani::assume(la <= 1300 && lc <= 1300);
+    kani::assume(la <= lmax && lc <= lmax);
     let oa = 192u64;
     let ob = oa + sa as u64;
     let oc = ob + sb as u64;
@@ -501,7 +517,7 @@ fn val_write(is_new: bool, b_is_free: bool, with_c: bool) {
         free_slot(ob, sb, 0)
     } else {
         let l: u32 = kani::any();
-        kani::assume(l <= 1300);
+        kani::assume(l <= lmax);
         used_val(ob, sb, l, kani::any())
     };
     if with_c {
@@ -511,12 +527,15 @@ fn val_write(is_new: bool, b_is_free: bool, with_c: bool) {
         f.hdr[head_word(false, sb)] = ob;
     }
     f.end = e0;
-    check_i1(&f, false);
+    if !small {
+        // (sanity check of the constructed image; the quick variants leave it to r_image_twin)
+        check_i1(&f, false);
+    }
     let keep_c = f.slots[2];
     let keep_b = f.slots[1];
     let keep_a = f.slots[0];
     let l1: usize = kani::any();
-    kani::assume(l1 <= 1300);
+    kani::assume(l1 <= lmax as usize);
     let nb: [u8; BMAX] = kani::any();
     let vf = vp::val_file(f);
     let piece = ValuePiece { offset: ValuePieceOffset::new(if is_new { 0 } else { oa }), size: Default::default(), value: sized_vec(l1, &nb) };
@@ -566,18 +585,20 @@ fn val_write(is_new: bool, b_is_free: bool, with_c: bool) {
             assert!(b.body == keep_b.body && b.size == keep_b.size && b.len == keep_b.len && b.blen == keep_b.blen && b.bytes[0] == keep_b.bytes[0] && b.bytes[1] == keep_b.bytes[1] && b.bytes[2] == keep_b.bytes[2], "the slot right behind the record was modified");
         }
     });
-    // read back through the real reader
-    let back = ok(vf.read_piece_only_value(out.offset));
-    assert!(back.len() == l1, "value read back with another length");
-    assert!((l1 < 1 || back[0] == nb[0]) && (l1 < 2 || back[1] == nb[1]) && (l1 < 3 || back[2] == nb[2]), "value read back with other bytes");
+    // read back through the real readers
+    if !small {
+        let back = ok(vf.read_piece_only_value(out.offset));
+        assert!(back.len() == l1, "value read back with another length");
+        assert!((l1 < 1 || back[0] == nb[0]) && (l1 < 2 || back[1] == nb[1]) && (l1 < 3 || back[2] == nb[2]), "value read back with other bytes");
+        core::mem::forget(back);
+    }
     let rl = ok(vf.read_piece_only_value_length(out.offset));
-    assert!(rl.as_value() as usize == l1);
+    assert!(rl.as_value() as usize == l1, "value length read back differs");
     kani::cover!(!is_new && off == oa, "in place");
     kani::cover!(off == ob && need >= 1024 && sb > need, "bigger large free slot reused (keeps its own size)");
     kani::cover!(off == ob && need < 1024, "small free slot reused");
     kani::cover!(off == e0, "appended");
     kani::cover!(!is_new && off != oa && spec::list_of_lf(sa) == spec::list_of_lf(sb) && b_free, "old slot pushed onto a non-empty list");
-    core::mem::forget(back);
     core::mem::forget(out);
     core::mem::forget(vf);
 }
@@ -586,6 +607,9 @@ rproof!(r_val_rewrite_bfree, val_write(false, true, false));
 rproof!(r_val_rewrite_bused, val_write(false, false, false));
 rproof!(r_val_new_bfree, val_write(true, true, false));
 rproof!(r_val_new_bused, val_write(true, false, false));
+rproof!(r_val_rewrite_small_bfree, val_write_sz(false, true, false, true));
+rproof!(r_val_rewrite_small_bused, val_write_sz(false, false, false, true));
+rproof!(r_val_new_small_bfree, val_write_sz(true, true, false, true));
 // the same with a third, used slot C behind B (thorough tier)
 rproof!(r_val_rewrite_bfree_c, val_write(false, true, true));
 rproof!(r_val_rewrite_bused_c, val_write(false, false, true));
